@@ -22,8 +22,19 @@ Quirks that are modelled because the code has them:
   value and "no change" is an error that is retried only if `f` returned `retry = true`; a version
   mismatch is likewise only retried when `f` said `retry = true`;
 * consul/etcd retry a conflict regardless of the retry flag;
+* memberlist merges IN PLACE: on the "no change" path the stored object is what `Merge` left in it
+  (version unchanged) — invisible for a Mergeable that honours "do not change the logical value
+  when returning an empty change" (`Lawful` in the proofs), visible otherwise;
 * `MultiClient` mirrors the value returned by the *last* invocation of `f` after the primary CAS
-  returned nil, with a one-shot function (`retry = false`).
+  returned nil, with a one-shot function (`retry = false`), to every client except the one it
+  captured as primary when the call started; the primary may be switched at runtime (`Ev.switch`)
+  while calls are in flight.
+
+Dead code, on purpose: consul's "a CAS on an absent key succeeds for any index" and the token
+variable kept across attempts can only matter when a key disappears between two attempts (Delete).
+`Ev` has no Delete (C07 quantifies over CAS calls only), so in every run an attempt that finds the
+key absent holds token 0 (`absent_read_holds_zero_token` in Props); the quirks are modelled as the
+code has them but never fire.
 -/
 namespace C07
 
@@ -68,8 +79,9 @@ def readIdx (s : Store α) (k : Key) (idx : Nat) : Nat :=
 inductive Outcome | wrote | conflict | nochange | declined | failed
   deriving DecidableEq, Repr
 
-/-- The conditional write. `merge cur out = none` is memberlist's "no change detected". -/
-def condWrite (merge : Option α → α → Option α) (s : Store α) (k : Key) (idx : Nat) (out : α) :
+/-- The conditional write. `merge cur out = (result, changed)` is `computeNewValue` followed by the
+"no change" test of `mergeValueForKey` (`change == nil || len(change.MergeContent()) == 0`). -/
+def condWrite (merge : Option α → α → α × Bool) (s : Store α) (k : Key) (idx : Nat) (out : α) :
     Store α × Outcome :=
   match s.kind with
   | .consul =>
@@ -86,20 +98,30 @@ def condWrite (merge : Option α → α → Option α) (s : Store α) (k : Key) 
     -- mergeValueForKey(cas = true, casVersion = idx): `if cas && curr.Version != casVersion` → mismatch;
     -- version 0 = the key did not exist when it was read, and must still not exist
     if s.ver k ≠ idx then (s, .conflict)
-    else match merge (s.val k) out with
-      | none => (s, .nochange)
-      | some r => (s.set k ⟨r, s.ver k + 1⟩, .wrote)
+    else match s.ent k with
+      | none =>
+        -- computeNewValue with oldVal == nil: result = change = incoming
+        match merge none out with
+        | (r, true) => (s.set k ⟨r, 1⟩, .wrote)
+        | (_, false) => (s, .nochange)
+      | some e =>
+        -- `oldVal.Merge(incoming, cas)` works IN PLACE on the stored object ("we do not take a deep
+        -- copy of curr.value here, it is modified in-place"): on the no-change path no new ValueDesc
+        -- is stored and the version stays, but the stored value is whatever Merge left in the object
+        match merge (some e.val) out with
+        | (r, true) => (s.set k ⟨r, e.tok + 1⟩, .wrote)
+        | (r, false) => (s.set k ⟨r, e.tok⟩, .nochange)
 
 /-- HISTORY (not the current code): memberlist's rule before the repair of finding D4 (dskit commit
 "memberlist KV CAS on a missing key is not atomic"): `if casVersion > 0 && curr.Version != casVersion`,
 i.e. an attempt that had read an absent key (version 0) was never rejected. Kept only for the
 witness `ml_first_write_not_atomic_history`; nothing in the model of the current code uses it. -/
-def condWriteMlOld (merge : Option α → α → Option α) (s : Store α) (k : Key) (idx : Nat) (out : α) :
+def condWriteMlOld (merge : Option α → α → α × Bool) (s : Store α) (k : Key) (idx : Nat) (out : α) :
     Store α × Outcome :=
   if idx > 0 ∧ s.ver k ≠ idx then (s, .conflict)
   else match merge (s.val k) out with
-    | none => (s, .nochange)
-    | some r => (s.set k ⟨r, s.ver k + 1⟩, .wrote)
+    | (_, false) => (s, .nochange)
+    | (r, true) => (s.set k ⟨r, s.ver k + 1⟩, .wrote)
 
 /-- What the caller-supplied function returns. -/
 inductive FRet (α : Type)
@@ -107,25 +129,30 @@ inductive FRet (α : Type)
   | decline
   | fail (retry : Bool)
 
-/-- One CAS call as seen by the backend client: the key is already mapped through the prefix
+/-- One CAS call as seen by the store-level clients: the key is already mapped through the prefix
 wrappers; `f att inp` is the result of the `att`-th invocation (0-based) on input `inp`;
-`mirror` = a `MultiClient` with mirroring enabled is in the path. -/
+`mirror` = a `MultiClient` with mirroring enabled is in the path (see `wrapCall`). -/
 structure Call (α : Type) where
   key : Key
   f : Nat → Option α → FRet α
   mirror : Bool
 
+/-- Where a caller is. Stores are identified by their position in `MultiClient.clients` (a plain
+client is the one-element list). `p` is the position `MultiClient.CAS` captured as primary when the
+call started (`_, kv := m.getPrimaryClient()`); `t :: rest` are the stores `writeToSecondary` still
+has to write to. -/
 inductive Phase (α : Type)
   | idle
-  | reading (cl : Call α) (cid att idx : Nat)                       -- next: Get on the primary
-  | holding (cl : Call α) (cid att idx : Nat) (inp : Option α)      -- next: f, then conditional write
-  | mreading (k : Key) (v : α) (att idx : Nat)                      -- mirror write: Get on the secondary
-  | mholding (k : Key) (v : α) (att idx : Nat) (inp : Option α)     -- mirror write: conditional write
+  | reading (p : Nat) (cl : Call α) (cid att idx : Nat)                       -- next: Get on store p
+  | holding (p : Nat) (cl : Call α) (cid att idx : Nat) (inp : Option α)      -- next: f, then conditional write on p
+  | mreading (t : Nat) (rest : List Nat) (k : Key) (v : α) (att idx : Nat)    -- mirror write: Get on store t
+  | mholding (t : Nat) (rest : List Nat) (k : Key) (v : α) (att idx : Nat) (inp : Option α)  -- mirror: conditional write on t
 
-/-- Log record of one attempt (one invocation of `f`). -/
+/-- Log record of one attempt of a primary loop (one invocation of `f`). -/
 structure Rec (α : Type) where
   caller : Nat
   cid : Nat                 -- call identifier (unique per `begin`)
+  store : Nat               -- position of the store the call uses as primary
   key : Key
   att : Nat
   idx : Nat                 -- token held by the attempt
@@ -138,12 +165,13 @@ structure Rec (α : Type) where
 
 structure Cfg (α : Type) where
   budget : Nat                          -- attempts of the primary CAS loop (≥ 1)
-  sbudget : Nat                         -- attempts of the mirror CAS loop
-  merge : Option α → α → Option α       -- memberlist: merge `out` into the stored value; none = no change
+  sbudget : Nat                         -- attempts of each mirror CAS loop
+  merge : Option α → α → α × Bool       -- memberlist: (value left in the store, changed?)
 
 structure Sys (α : Type) where
-  pri : Store α
-  sec : Store α
+  stores : Nat → Store α    -- MultiClient.clients[i].client
+  clients : List Nat        -- positions that exist (`[p]` for a plain client)
+  primary : Nat             -- MultiClient.primaryID
   ph : Nat → Phase α
   nextCid : Nat
   log : List (Rec α)        -- newest first
@@ -151,9 +179,13 @@ structure Sys (α : Type) where
 inductive Ev (α : Type)
   | begin (c : Nat) (cl : Call α)
   | step (c : Nat)
+  | switch (ix : Nat)       -- runtime configuration `MultiRuntimeConfig.PrimaryStore` → `setNewPrimaryClient`
 
 def Sys.setPh (s : Sys α) (c : Nat) (p : Phase α) : Sys α :=
   { s with ph := fun c' => if c' = c then p else s.ph c' }
+
+def Sys.setStore (s : Sys α) (i : Nat) (st : Store α) : Sys α :=
+  { s with stores := fun j => if j = i then st else s.stores j }
 
 /-- Is a failed conditional write retried? consul/etcd `continue` unconditionally; memberlist's
 `trySingleCas` hands back the retry flag that `f` returned. -/
@@ -163,95 +195,161 @@ def retryable (kind : Backend) (retry : Bool) : Bool :=
   | _ => true
 
 /-- after a failed attempt: loop again (budget permitting) or give up with an error. -/
-def retryPhase (cfg : Cfg α) (kind : Backend) (cl : Call α) (cid att idx : Nat) : Phase α × Option Bool :=
+def retryPhase (cfg : Cfg α) (kind : Backend) (p : Nat) (cl : Call α) (cid att idx : Nat) : Phase α × Option Bool :=
   if att + 1 < cfg.budget then
-    (.reading cl cid (att + 1) (match kind with | .ml => 0 | _ => idx), none)
+    (.reading p cl cid (att + 1) (match kind with | .ml => 0 | _ => idx), none)
   else (.idle, some false)
 
-/-- phase after the primary CAS succeeded with a written value. -/
-def mirrorPhase (cfg : Cfg α) (cl : Call α) (out : α) : Phase α :=
-  if cl.mirror ∧ 0 < cfg.sbudget then .mreading cl.key out 0 0 else .idle
+/-- `MultiClient.writeToSecondary`: "propagate new value to all remaining clients" — the mirror write
+goes to every client of `m.clients` except the one the CAS call used as primary
+(`if kvc == primary { continue }`), wherever that primary sits in the list. -/
+def mirrorTargets (clients : List Nat) (primary : Nat) : List Nat :=
+  clients.filter (fun c => c != primary)
 
-/-- the apply + conditional-write step of caller `c`. -/
-def commit (cfg : Cfg α) (s : Sys α) (c : Nat) (cl : Call α) (cid att idx : Nat) (inp : Option α) : Sys α :=
-  let before := s.pri.val cl.key
+/-- the loop of `writeToSecondary` over the remaining targets. -/
+def mirrorNext (cfg : Cfg α) (ts : List Nat) (k : Key) (v : α) : Phase α :=
+  match ts with
+  | [] => .idle
+  | t :: rest => if 0 < cfg.sbudget then .mreading t rest k v 0 0 else .idle
+
+/-- phase after the primary CAS (on store `p`) succeeded with a written value. -/
+def mirrorPhase (cfg : Cfg α) (s : Sys α) (p : Nat) (cl : Call α) (out : α) : Phase α :=
+  if cl.mirror then mirrorNext cfg (mirrorTargets s.clients p) cl.key out else .idle
+
+/-- the apply + conditional-write step of caller `c` on its primary store `p`. -/
+def commit (cfg : Cfg α) (s : Sys α) (c p : Nat) (cl : Call α) (cid att idx : Nat) (inp : Option α) : Sys α :=
+  let before := (s.stores p).val cl.key
   let mk (out : Option α) (after : Option α) (oc : Outcome) (done : Option Bool) : Rec α :=
-    ⟨c, cid, cl.key, att, idx, inp, before, out, after, oc, done⟩
+    ⟨c, cid, p, cl.key, att, idx, inp, before, out, after, oc, done⟩
   match cl.f att inp with
   | .fail retry =>
-    let (p, d) := if retry then retryPhase cfg s.pri.kind cl cid att idx else (.idle, some false)
-    { (s.setPh c p) with log := mk none before .failed d :: s.log }
+    let (q, d) := if retry then retryPhase cfg (s.stores p).kind p cl cid att idx else (.idle, some false)
+    { (s.setPh c q) with log := mk none before .failed d :: s.log }
   | .decline =>
     { (s.setPh c .idle) with log := mk none before .declined (some true) :: s.log }
   | .write out retry =>
-    match condWrite cfg.merge s.pri cl.key idx out with
+    match condWrite cfg.merge (s.stores p) cl.key idx out with
     | (st, .wrote) =>
-      { (s.setPh c (mirrorPhase cfg cl out)) with pri := st, log := mk (some out) (st.val cl.key) .wrote (some true) :: s.log }
-    | (_, oc) =>
-      let (p, d) := if retryable s.pri.kind retry then retryPhase cfg s.pri.kind cl cid att idx else (.idle, some false)
-      { (s.setPh c p) with log := mk (some out) before oc d :: s.log }
+      { ((s.setStore p st).setPh c (mirrorPhase cfg s p cl out)) with
+        log := mk (some out) (st.val cl.key) .wrote (some true) :: s.log }
+    | (st, oc) =>
+      let (q, d) := if retryable (s.stores p).kind retry then retryPhase cfg (s.stores p).kind p cl cid att idx
+                    else (.idle, some false)
+      { ((s.setStore p st).setPh c q) with log := mk (some out) (st.val cl.key) oc d :: s.log }
 
-/-- the conditional write of the mirror loop (`writeToSecondary`: `return newValue, false, nil`). -/
-def mcommit (cfg : Cfg α) (s : Sys α) (c : Nat) (k : Key) (v : α) (att idx : Nat) : Sys α :=
-  match condWrite cfg.merge s.sec k idx v with
-  | (st, .wrote) => { (s.setPh c .idle) with sec := st }
-  | (_, _) =>
-    if retryable s.sec.kind false = true ∧ att + 1 < cfg.sbudget then s.setPh c (.mreading k v (att + 1) idx) else s.setPh c .idle
+/-- the conditional write of one mirror loop (`writeToSecondary`: `return newValue, false, nil`, so a
+memberlist target never retries; consul/etcd retry conflicts within their budget); an error is only
+logged and the loop goes on with the next store. -/
+def mcommit (cfg : Cfg α) (s : Sys α) (c t : Nat) (rest : List Nat) (k : Key) (v : α) (att idx : Nat) : Sys α :=
+  match condWrite cfg.merge (s.stores t) k idx v with
+  | (st, .wrote) => (s.setStore t st).setPh c (mirrorNext cfg rest k v)
+  | (st, _) =>
+    if retryable (s.stores t).kind false = true ∧ att + 1 < cfg.sbudget
+    then (s.setStore t st).setPh c (.mreading t rest k v (att + 1) idx)
+    else (s.setStore t st).setPh c (mirrorNext cfg rest k v)
 
 def next (cfg : Cfg α) (s : Sys α) : Ev α → Sys α
   | .begin c cl =>
     match s.ph c with
-    | .idle => { (s.setPh c (.reading cl s.nextCid 0 0)) with nextCid := s.nextCid + 1 }
+    | .idle => { (s.setPh c (.reading s.primary cl s.nextCid 0 0)) with nextCid := s.nextCid + 1 }
     | _ => s
   | .step c =>
     match s.ph c with
     | .idle => s
-    | .reading cl cid att idx => s.setPh c (.holding cl cid att (readIdx s.pri cl.key idx) (s.pri.val cl.key))
-    | .holding cl cid att idx inp => commit cfg s c cl cid att idx inp
-    | .mreading k v att idx => s.setPh c (.mholding k v att (readIdx s.sec k idx) (s.sec.val k))
-    | .mholding k v att idx _ => mcommit cfg s c k v att idx
+    | .reading p cl cid att idx =>
+      s.setPh c (.holding p cl cid att (readIdx (s.stores p) cl.key idx) ((s.stores p).val cl.key))
+    | .holding p cl cid att idx inp => commit cfg s c p cl cid att idx inp
+    | .mreading t rest k v att idx =>
+      s.setPh c (.mholding t rest k v att (readIdx (s.stores t) k idx) ((s.stores t).val k))
+    | .mholding t rest k v att idx _ => mcommit cfg s c t rest k v att idx
+  | .switch ix =>
+    -- setNewPrimaryClient: unknown store names are rejected; CAS calls in flight are not interrupted
+    if ix ∈ s.clients then { s with primary := ix } else s
 
 def run (cfg : Cfg α) (s : Sys α) (evs : List (Ev α)) : Sys α := evs.foldl (next cfg) s
 
-def Sys.init (pri sec : Store α) : Sys α := ⟨pri, sec, fun _ => .idle, 0, []⟩
+/-- a `MultiClient` over `pri` (position 0, primary) and `sec` (position 1); with `multi = false` a
+plain client over `pri`. -/
+def Sys.init2 (pri sec : Store α) (multi : Bool) : Sys α :=
+  ⟨fun i => if i = 0 then pri else sec, if multi then [0, 1] else [0], 0, fun _ => .idle, 0, []⟩
 
-/-! ### Wrappers -/
+def Sys.pri (s : Sys α) : Store α := s.stores s.primary
 
-/-- `MultiClient.writeToSecondary`: "propagate new value to all remaining clients" — the mirror write
-goes to every client of `m.clients` except the one the CAS call used as primary
-(`if kvc == primary { continue }`). Clients are identified by their position in `m.clients`; the
-primary is `primaryID`, which `setNewPrimaryClient` (runtime configuration) may have moved away from
-position 0. In `Sys`, `pri` is the store the calls use as primary and `sec` the remaining one,
-wherever they sit in the client list; the mirror phases (`mreading`/`mholding`) are the store-level
-steps of this loop and act on `sec` only. -/
-def mirrorTargets (clients : List Nat) (primary : Nat) : List Nat :=
-  clients.filter (fun c => c != primary)
+/-! ### Wrappers (`kv.createClient`: backend → MultiClient → PrefixClient → metrics) -/
 
 /-- `prefixedKVClient`: every operation goes to `prefix ++ key`. -/
 def prefixKey (p : Key) (k : Key) : Key := p ++ k
 
+/-- the wrappers of `kv/`, outermost first. -/
+inductive Wrap
+  | pfx (p : Key)            -- kv/prefix.go: `c.client.CAS(ctx, c.prefix+key, f)`
+  | metrics                  -- kv/metrics.go: `instrument.CollectedRequest(…, m.c.CAS(ctx, key, f))`, same key, f, result
+  | multi (mirror : Bool)    -- kv/multi.go: CAS on the primary with a function that remembers f's output, then the mirror
+
+/-- what the user hands to `kv.Client.CAS`. -/
+structure UCall (α : Type) where
+  key : Key
+  f : Nat → Option α → FRet α
+
+def wrapKey : List Wrap → Key → Key
+  | [], k => k
+  | .pfx p :: ws, k => wrapKey ws (prefixKey p k)
+  | _ :: ws, k => wrapKey ws k
+
+def wrapMirror : List Wrap → Bool
+  | [] => false
+  | .multi m :: ws => m || wrapMirror ws
+  | _ :: ws => wrapMirror ws
+
+/-- the store-level call a user call becomes after passing through a wrapper stack. -/
+def wrapCall (ws : List Wrap) (u : UCall α) : Call α := ⟨wrapKey ws u.key, u.f, wrapMirror ws⟩
+
+/-- user-level events: the scheduler steps and runtime switches are what they are; a `begin` goes
+through the wrapper stack. -/
+inductive UEv (α : Type)
+  | begin (c : Nat) (u : UCall α)
+  | step (c : Nat)
+  | switch (ix : Nat)
+
+def wrapEv (ws : List Wrap) : UEv α → Ev α
+  | .begin c u => .begin c (wrapCall ws u)
+  | .step c => .step c
+  | .switch ix => .switch ix
+
 /-! ### The value type used by the correspondence harness: max-register counter + grow-only id set -/
 
+/-- `touch` counts the `Merge` calls that ran on the stored object without reporting a change: it is
+not part of the logical value (the judge ignores it) and makes memberlist's in-place merge on the
+"no change" path observable. -/
 structure Val where
   ctr : Nat
   set : List Nat      -- strictly increasing
+  touch : Nat := 0
   deriving DecidableEq, Repr
 
 def insertId (x : Nat) : List Nat → List Nat
   | [] => [x]
   | y :: ys => if x < y then x :: y :: ys else if x = y then y :: ys else y :: insertId x ys
 
-def Val.empty : Val := ⟨0, []⟩
+def Val.empty : Val := ⟨0, [], 0⟩
 
-def Val.join (a b : Val) : Val := ⟨max a.ctr b.ctr, b.set.foldl (fun acc x => insertId x acc) a.set⟩
+def Val.join (a b : Val) : Val := ⟨max a.ctr b.ctr, b.set.foldl (fun acc x => insertId x acc) a.set, a.touch⟩
 
-/-- `c07Val.Merge` + the "no change" test of `mergeValueForKey` (`len(change.MergeContent()) == 0`). -/
-def Val.merge (cur : Option Val) (out : Val) : Option Val :=
+/-- `c07Val.Merge` + the "no change" test of `mergeValueForKey` (`len(change.MergeContent()) == 0`).
+`touchy = true` is the harness type (counts no-change merges in place); `touchy = false` is the
+lawful variant ("implementations should be careful about not changing logical value when returning
+empty change") used in the non-vacuity examples. -/
+def Val.mergeWith (touchy : Bool) (cur : Option Val) (out : Val) : Val × Bool :=
   match cur with
-  | none => if out.ctr = 0 ∧ out.set = [] then none else some out
-  | some v => let r := v.join out; if r = v then none else some r
+  | none => (out, !(out.ctr = 0 ∧ out.set = []))
+  | some v =>
+    let r := v.join out
+    if r.ctr = v.ctr ∧ r.set = v.set then (if touchy then { v with touch := v.touch + 1 } else v, false)
+    else (r, true)
 
-def Val.inc (v : Option Val) : Val := let w := v.getD Val.empty; ⟨w.ctr + 1, w.set⟩
-def Val.app (id : Nat) (v : Option Val) : Val := let w := v.getD Val.empty; ⟨w.ctr, insertId id w.set⟩
+def Val.merge := Val.mergeWith true
+
+def Val.inc (v : Option Val) : Val := let w := v.getD Val.empty; { w with ctr := w.ctr + 1 }
+def Val.app (id : Nat) (v : Option Val) : Val := let w := v.getD Val.empty; { w with set := insertId id w.set }
 
 end C07
